@@ -12,9 +12,10 @@ import random
 
 from harness import core, sysrun
 
-MODES = ("plain", "cancel", "kill", "timeout", "sbatchfail", "squeuefail", "write", "hooks", "cyclic", "local", "racing_try", "appendtimeout", "suspend")
+MODES = ("plain", "cancel", "kill", "timeout", "sbatchfail", "squeuefail", "write", "hooks", "cyclic", "local", "racing_try", "appendtimeout", "suspend", "resubmit")
 WRITE_SITES = ["write:job_status.json", "write:cluster_config.json", "write:config_version", "write:job_status_version",
-               "write:batch_config", "write:marker_touch", "write:marker_remove", "append:processed_results.csv"]
+               "write:batch_config", "write:marker_touch", "write:marker_remove", "append:processed_results.csv",
+               "consolidate:processed_results.csv", "consolidate:processed_results.csv"]
 
 
 def make_case(seed, mode):
@@ -62,11 +63,31 @@ def make_case(seed, mode):
         plan["local"] = True
     elif mode == "write":
         plan["write_error"] = [rng.choice(WRITE_SITES), rng.randint(2, 7)]
+        if plan["write_error"][0].startswith("consolidate:"):
+            plan["write_error"][1] = rng.randint(1, 3)
         plan["break_stale"] = rng.random() < 0.5
+    elif mode == "resubmit":
+        # the submission completes (sometimes after losing a batch), then `jade resubmit-jobs` reruns the failed /
+        # canceled / missing jobs and their dependents, and the submission runs to completion a second time
+        if rng.random() < 0.4:
+            plan["actions"] = [{"at": at, "do": "timeout"}]
+            plan["break_stale"] = True
+        if not any(j.get("rc") for j in sc["jobs"]) and not plan.get("actions"):
+            rng.choice(sc["jobs"])["rc"] = 2
+        plan["then_resubmit"] = {"failed": True, "missing": True} if rng.random() < 0.8 else {"failed": True, "missing": False}
     return sc, plan
 
 
 DIRECTED = {
+    # C02/C04: on one node a failing job cancels two queued flagged jobs in one pass while a third job is queued
+    # behind them; the canceled jobs must never start and the job behind them must still run after its blocker
+    "node_cancels_two_with_one_behind": (
+        {"jobs": [{"name": "f", "deps": [], "group": "g", "est": 1, "rc": 1}, {"name": "g1", "deps": [], "group": "g", "est": 1, "rc": 0},
+                  {"name": "j1", "deps": ["f"], "group": "g", "est": 1, "rc": 0, "cancel": True},
+                  {"name": "j2", "deps": ["f", "g1"], "group": "g", "est": 1, "rc": 0, "cancel": True},
+                  {"name": "k", "deps": ["g1"], "group": "g", "est": 1, "rc": 0}],
+         "groups": [{"name": "g", "size": 5, "time": False, "try": True, "nproc": 2}], "max_nodes": 1, "hooks": {}, "node_cpus": 2},
+        {"strategy": "slow_finish", "finish_order": ["f", "g1"]}),
     # C03/C05: the user runs try-submit-jobs while the last node finishes between the round's two
     # observations (result collection / scheduler status); the run must still end with every result
     "try_races_with_last_node": (
@@ -81,6 +102,12 @@ DIRECTED = {
         {"jobs": [{"name": n, "deps": [], "group": "g", "est": 1, "rc": 0} for n in ("a", "b", "c", "d")],
          "groups": [{"name": "g", "size": 1, "time": False, "try": True, "nproc": 1}], "max_nodes": 3, "hooks": {}, "node_cpus": 2},
         {"strategy": "submitter_first", "break_stale": True, "write_error": ["write:batch_config", 2]}),
+    # C11/C08: the append to processed_results.csv fails (quota exceeded) while a round consolidates a node file;
+    # the rows must stay on disk (in the node file) and be picked up by a later round
+    "collect_append_fails": (
+        {"jobs": [{"name": n, "deps": [], "group": "g", "est": 1, "rc": 0} for n in ("a", "b", "c")],
+         "groups": [{"name": "g", "size": 1, "time": False, "try": True, "nproc": 1}], "max_nodes": 1, "hooks": {}, "node_cpus": 2},
+        {"strategy": "nodes_first", "break_stale": True, "write_error": ["consolidate:processed_results.csv", 1]}),
     # C12 known finding: a node dies inside the locked append of a result row; markers never broken
     "node_dies_holding_result_lock": (
         {"jobs": [{"name": "a", "deps": [], "group": "g", "est": 1, "rc": 0}, {"name": "b", "deps": [], "group": "g", "est": 1, "rc": 0}],
@@ -122,7 +149,7 @@ def run_cases(cases, procs=None):
 # ---------------------------------------------------------------------------------------------
 def fault_free(plan, r):
     acts = [a for a in plan.get("actions", []) if a["do"] not in ("try", "suspend", "resume", "strategy")]
-    return not acts and not plan.get("sbatch_fail") and not plan.get("write_error") and not r["fired"]
+    return not acts and not plan.get("sbatch_fail") and not plan.get("write_error") and not r["fired"] and plan.get("then_resubmit") is None
 
 
 def acyclic(sc):
@@ -249,14 +276,38 @@ def final_oracles(sc, plan, r):
             still = [x for x in ev.get("active", []) if x in (snap_ids or []) and x not in asked]
             if still:
                 probs.append(("C14", "active-batch-not-canceled", f"batches {still} active and persisted but never scancel'ed"))
+    # C11 / C12 / C14 / C08: every result a node or a submitter recorded is still on disk at the end (consolidated file or
+    # a node file), whatever failed in between; a resubmission legitimately removes the rows of the jobs it reruns
+    if "disk_rows" in r and not any(e["k"] == "phase2" for e in tr):
+        recorded = [e["job"] for e in tr if (e["k"] == "append" and e.get("ok") and e.get("batch") is not None) or e["k"] == "sub_cancel"]
+        lost = sorted(set(n for n in recorded if n not in r["disk_rows"]))
+        if lost:
+            for p_ in ("C11", "C12", "C14", "C08", "C03"):
+                probs.append((p_, "recorded-result-lost", f"results of {lost} were recorded but are in no result file at the end"))
+    # C11 "later invocations continue consistently": when the submission completes, a job whose result is in the
+    # consolidated file is not still "submitted" in the job table (its completion reached the status)
+    if r["status"].get("complete") and r.get("final") and not any(e["k"] == "phase2" for e in tr):
+        sn = r["status"]
+        still = sorted(j[0] for j in sn.get("jobs", []) if j[1] == "submitted" and j[0] in r["final"][0])
+        if still:
+            # known finding when the cause is an error raised in a round between result consolidation and the
+            # job-status update; any other cause keeps the generic signature and is reported
+            werr = [f for f in r.get("fired", []) if f and f[0] == "write_error"]
+            sig = "completion-lost-by-error-between-consolidation-and-status-update" if werr else "completion-never-reached-status"
+            probs.append(("C11", sig, f"jobs {still} have a result in the final results but are still 'submitted' in the job table; jobs waiting for them were never submitted: missing={r['final'][1]} (injected: {werr})"))
     # C09: every observation at a lock-free instant is consistent and monotone
     prev = None
     resub = False
     for ev in tr:
+        if ev["k"] == "phase2":
+            resub = True          # resubmit-jobs rewrites the table (under the lock): monotonicity restarts after it
         if ev["k"] == "prepare_resubmit":
             prev = None
+            resub = False
         if ev["k"] != "observe" or "error" in ev["snapshot"]:
             continue
+        if resub:
+            prev = None
         sn = ev["snapshot"]
         sts = [j[1] for j in sn["jobs"]]
         nd, ns = sts.count("done"), sts.count("submitted")
@@ -293,7 +344,13 @@ def system_phase(chk, pid, modes, n_quick, n_thorough, also=(), directed=()):
     # the corpus (minimized earlier failures) runs first
     results = run_cases(cases)
     # local mode (no scheduler, no batches) is outside the system model: only the Python oracles judge it
-    items = [(sc, (r["trace"] if not plan.get("local") else [])) for _, _, sc, plan, r in results]
+    def coq_part(plan, tr):
+        # local mode and everything after a resubmission are outside the Coq system model
+        if plan.get("local"):
+            return []
+        cut = next((i for i, e in enumerate(tr) if e["k"] == "phase2"), None)
+        return tr if cut is None else tr[:cut]
+    items = [(sc, coq_part(plan, r["trace"])) for _, _, sc, plan, r in results]
     try:
         acc = sysrun.accept_traces(items, name=f"sys_{pid}")
     except core.BuildError as e:
